@@ -264,6 +264,12 @@ func c14Circuit(r *vrt.Rng) *circuit.Circuit {
 				nm = strings.Repeat("n", r.Range(100, 9000)) // long names
 			case 2:
 				nm = "ünï©ode-" + nm
+			case 3, 4: // every short length, and lengths next to powers of two
+				n := r.Range(1, 300)
+				if r.Intn(3) == 0 {
+					n = (1 << uint(r.Range(3, 12))) + r.Range(-5, 5)
+				}
+				nm = strings.Repeat("k", n)
 			}
 			io = append(io, circuit.IOArg{Name: nm, Type: t})
 			left -= int(t.Bits)
@@ -327,7 +333,7 @@ func main(q Q, k uint3) (int9, uint5) {
 func init() {
 	vrt.Register(&vrt.Prop{
 		ID: "C14", Level: "fault_enumeration",
-		Rule: "O1 round trip: generated circuits with typed/compound/array/string I/O, empty, long and non-ASCII names, INV-only bodies, and compiled struct/array programs: Marshal->ParseMPCLC->Marshal byte-identical, same gates/counts/signature, same function on sampled inputs; same for Bristol; types.Parse(Info.String()) round trip. " +
+		Rule: "O1 round trip: generated circuits with typed/compound/array/string I/O, empty, long, non-ASCII names and names of every length 1-300 and next to powers of two, INV-only bodies, and compiled struct/array programs: Marshal->ParseMPCLC->Marshal byte-identical, same gates/counts/signature, same function on sampled inputs; same for Bristol; types.Parse(Info.String()) round trip. " +
 			"O2 malformed input: a valid file is mutated on a model of its layout (truncation at every byte, every single-bit flip for small files, extension by valid gates / random tails, gate swap/duplication/removal, header and count fields set to chosen or PRNG values); files declaring a size > 10^6 are outside the precondition and skipped (counted). " +
 			"Oracle: parser returns an error, or a circuit whose every gate input is defined before use and every wire assigned; a panic or hang is a violation. Distinct = hash of the mutated bytes; non-trivial = differs from the valid file.",
 		NumCases: func(t string) int {
